@@ -609,6 +609,15 @@ def hashctx_server():
         out.flush()
 
 
+def context_env(hashseed):
+    """What else differs between fresh interpreters besides the hash seed."""
+    v = int(hashseed) % 7
+    return {"PYTHONHASHSEED": int(hashseed),
+            "LC_ALL": ["C", "C.UTF-8", "POSIX", "C.UTF-8", "C", "en_US.UTF-8", "C.UTF-8"][v],
+            "TZ": ["UTC", "America/New_York", "Asia/Tokyo", "Pacific/Kiritimati", "UTC", "Europe/Berlin", "UTC"][v],
+            "cwd": ["/", "/tmp", None][int(hashseed) % 3]}
+
+
 class HashCtx:
     """Client for one fresh interpreter with a given PYTHONHASHSEED."""
 
@@ -1511,6 +1520,9 @@ class Checker:
             return {"class": "hashseed", "kind": "hashseed",
                     "signature": {"class": "hashseed", "op": o},
                     "op": o, "hashseeds": list(pair),
+                    "contexts": [context_env(pair[0]), context_env(pair[1])],
+                    "note": "class 'hashseed' = two fresh interpreters disagree; they differ in PYTHONHASHSEED and, "
+                            "derived from it, in locale, time zone and working directory (see contexts)",
                     "outcomes": {str(pair[0]): fa, str(pair[1]): fb}}
         if "scn" in s:
             return self.judge_scenario(s["scn"], cls)
